@@ -15,7 +15,7 @@ FUNCTIONS = [Buffer.ingest_data_stream, HotBuffer.process_incoming_data_stream, 
              Buffer.check_buffer_capacity, HotBuffer.has_capacity_for, ColdBuffer.has_capacity_for, Scheduler.check_ingest_capacity,
              Scheduler.allocate_ingest, Telescope.run]
 META = {
-    'bounds': {'C07.unit.rate/capacity/max_rate/resident data': 'unbounded ints', 'C07.unit.duration': '1..4', 'C07.overlap': 'two observations, start offset 0..2, durations 1..3, rates/capacities unbounded'},
+    'bounds': {'C07.unit.rate/capacity/max_rate/resident data': 'unbounded ints', 'C07.unit.duration': '1..4', 'C07.fresh': 'two Buffer objects built one after the other in one interpreter, unbounded rates/capacity', 'C07.overlap': 'two observations, start offset 0..2, durations 1..3, rates/capacities unbounded'},
     'outside_bounds': ['more than two overlapping ingests at unit level', 'non-integer rates'],
     'stubs': ['FakeCfg instead of JSON config'], 'assumptions': ['integral rates and durations (E12)'],
 }
@@ -74,6 +74,43 @@ def ingest(rate: int, dur: int, hcap: int, hused: int, rmax: int) -> bool:
     """
     t = ingest_tag(rate, dur, hcap, hused, rmax)
     wit.note(t, rate=rate, dur=dur, hcap=hcap, hused=hused, rmax=rmax)
+    return wit.verdict(t)
+
+
+def fresh_tag(rate, dur, hcap, rate2):
+    """a buffer built while another buffer of the same process holds an observation starts empty, and what is then
+    ingested into either is resident in that one only (used space == data of the observations resident in IT)"""
+    wit.begin()
+    dur = cz(dur, 1, 2)
+    env1, buf1, hot1, cold1 = mk(hcap, 0, hcap, 0, rate + rate2)
+    o1 = Observation('o1', 0, dur, 1, 'wf', rate)
+    o1.status = RunStatus.RUNNING
+    env1.process(buf1.ingest_data_stream(o1))
+    env1.run(dur + 2)
+    env2, buf2, hot2, cold2 = mk(hcap, 0, hcap, 0, rate + rate2)
+    for tier, name in ((hot2, 'hot'), (cold2, 'cold')):
+        held = list(tier.observations['stored'])
+        held += list(tier.observations.get('scheduled', [])) + list(tier.observations.get('finished', []))
+        if held or tier.observations['transfer'] is not None:
+            return f'C07/new-{name}-buffer-holds-observations-while-all-its-space-is-free'
+    o2 = Observation('o2', 0, 1, 1, 'wf', rate2)
+    o2.status = RunStatus.RUNNING
+    env2.process(buf2.ingest_data_stream(o2))
+    env2.run(3)
+    wit.reach('both-ingested')
+    for hot, o in ((hot1, o1), (hot2, o2)):
+        if hot.observations['stored'] != [o] or hot.total_capacity - hot.current_capacity != o.total_data_size:
+            return 'C07/used-space-differs-from-resident-data-with-two-buffers-in-one-process'
+    return None
+
+
+def fresh(rate: int, dur: int, hcap: int, rate2: int) -> bool:
+    """
+    pre: rate >= 1 and rate2 >= 1 and 1 <= dur <= 2 and rate * dur < hcap and rate2 < hcap
+    post: _
+    """
+    t = fresh_tag(rate, dur, hcap, rate2)
+    wit.note(t, rate=rate, dur=dur, hcap=hcap, rate2=rate2)
     return wit.verdict(t)
 
 
@@ -237,7 +274,7 @@ def warmup():
 
 def shards(tier, prop):
     T = 200 if tier == 'quick' else 1200
-    out = [{'fn': f, 'cond_timeout': T, 'path_timeout': 40} for f in ('ingest', 'admit', 'overlap', 'reject', 'free_mid')]
+    out = [{'fn': f, 'cond_timeout': T, 'path_timeout': 40} for f in ('ingest', 'admit', 'overlap', 'reject', 'free_mid', 'fresh')]
     out.append({'fn': 'overlap', 'pin': {'max_ingest': 1}, 'cond_timeout': T, 'path_timeout': 40})
-    out += [{'fn': f, 'cond_timeout': 40, 'twin': True} for f in ('ingest', 'admit', 'overlap', 'reject', 'free_mid')]
+    out += [{'fn': f, 'cond_timeout': 40, 'twin': True} for f in ('ingest', 'admit', 'overlap', 'reject', 'free_mid', 'fresh')]
     return out
